@@ -45,17 +45,24 @@ def gen_cell(g, k, tier):
     tk = kinds[k % len(kinds)]
     from ..targets import family
 
-    t = family(g, dims=len(tk), kinds=tk)
     sampler = ["importance", "smc", "smc", "emcee_smc", "smc", "blackjax_smc"][k % 6]
     if sampler == "blackjax_smc" and k % 12 != 5:
         sampler = "smc"
+    if sampler == "blackjax_smc":
+        tk = tk[:2]  # every blackjax run re-compiles its kernel: keep these cells small
+    t = family(g, dims=len(tk), kinds=tk)
     xpn = "jax" if sampler == "blackjax_smc" else ["numpy", "numpy", "torch", "jax", "numpy"][(k // 2) % 5]
     N = {"quick": 300, "thorough": 1000}[tier]
     if sampler == "blackjax_smc":
-        N = 150
+        N = 100
     cfg = recorded.default_cfg(g, target=t.describe(), sampler=sampler, xp=xpn, dtype=None if xpn != "torch" else "float64", n=N)
     cfg["kernel_steps"] = 4
-    leak = bool((k // 3) % 2)
+    # leak (A < 1) must be decorrelated from the sampler index: force both values for importance sampling
+    leak = bool(g.random() < 0.5)
+    if sampler == "importance":
+        leak = bool((k // 6) % 2 == 0)
+    if sampler == "blackjax_smc" and tier == "quick":
+        leak = False  # (a leaking proposal triggers the 4x second stage through the known finding)
     cfg["flow"] = {"truncate": not leak, "widen": float(g.uniform(1.6, 2.4)), "shift": float(g.uniform(-0.4, 0.4))}
     if leak and g.random() < 0.3:
         cfg["flow"]["family"] = "student"
@@ -111,6 +118,10 @@ def one_replicate(cfg, t, rep_seed):
         x = np.asarray(to_np(s.x), dtype=float)
         w = np.full(len(x), 1.0 / len(x))
         logz = float(to_np(s.log_evidence))
+    if cfg["sampler"] == "blackjax_smc":
+        import jax
+
+        jax.clear_caches()  # every run jit-compiles fresh closures; do not let the executables pile up
     stats = {"z": math.exp(logz - t.log_z())}
     for j, cdesc in enumerate(t.coords):
         if cdesc.kind == "box":
@@ -194,6 +205,8 @@ def run_case(case):
     g = np.random.default_rng(case["seed"])
     cfg, t = gen_cell(g, case["k"], case["tier"])
     R = {"quick": 16, "thorough": 32}[case["tier"]]
+    if cfg["sampler"] == "blackjax_smc":
+        R = R // 2  # each replicate recompiles the kernel; the evidence path is the shared base-class code
     counters["cells"] += 1
     counters["smc_cells" if cfg["sampler"] != "importance" else "importance_cells"] += 1
     base = int(g.integers(1, 10**8))
